@@ -1,3 +1,4 @@
 import Cicada.Thm.C15
 import Cicada.Thm.C15word
+import Cicada.Thm.C15sess
 /-! every theorem file of property C15 (the module audited by `./check C15`) -/
